@@ -27,7 +27,7 @@ type kase struct {
 }
 
 var stateNames = []string{"absent", "empty", "flat", "nested", "4k", "20k", "40k"}
-var extraNames = []string{"none", "one", "five", "duplicates", "fetch-like", "preference-like", "auth-like-last", "odd-names"}
+var extraNames = []string{"none", "one", "five", "duplicates", "fetch-like", "preference-like", "auth-like-last", "odd-names", "preference-entry-first"}
 
 func stateOf(n string) *structpb.Struct {
 	switch n {
@@ -49,8 +49,14 @@ func stateOf(n string) *structpb.Struct {
 	panic(n)
 }
 
+// prefFirst is replaced per world by a *valid* certificate-preference entry
+// that precedes further extra protocols.
+var prefFirst = []string{"", "after-the-preference", "and-another"}
+
 func extrasOf(n string) []string {
 	switch n {
+	case "preference-entry-first":
+		return prefFirst
 	case "none":
 		return nil
 	case "one":
@@ -86,6 +92,7 @@ func newWorld(seed int64) *world {
 	if err != nil {
 		panic(err)
 	}
+	prefFirst = []string{nodeenrollment.CertificatePreferenceV1Prefix + harness.CaKeyId(w.node.Creds.CertificateBundles[0].CaCertificateDer), "after-the-preference", "and-another"}
 	return w
 }
 
@@ -194,6 +201,7 @@ func (w *world) one(k kase, r *engine.Report) (string, string) {
 		}
 	} else {
 		// real dialer: request chunks first, then the extras, in order
+		extras = stripPref(extras)
 		n := len(list) - len(extras)
 		if n < 1 {
 			return "protos-differ:too-short", fmt.Sprintf("%s: ClientNextProtos() = %s lacks the offered entries", desc, preview(list))
